@@ -137,12 +137,12 @@ example : invalidRel "/a\\b/c".toList = false := by decide
 /-- `IsEndpointAllowed` is true iff some whitelist entry with a non-empty host part matches the
     hostname and its port part is `*` or equals the URL's port (an entry without port has
     port part `""`, hence only matches URLs without explicit port). -/
-theorem absRedirect_allowed (host port : Str) (allowed : List Str) :
-    isEndpointAllowed host port allowed = true ↔
+theorem absRedirect_allowed_old (host port : Str) (allowed : List Str) :
+    isEndpointAllowedOld host port allowed = true ↔
       ∃ d ∈ allowed, (splitHostPort d).1 ≠ [] ∧
         isHostnameAllowed host (splitHostPort d).1 = true ∧
         ((splitHostPort d).2 = ['*'] ∨ (splitHostPort d).2 = port) := by
-  unfold isEndpointAllowed
+  unfold isEndpointAllowedOld
   rw [List.any_eq_true]
   constructor
   · rintro ⟨d, hd, h⟩
@@ -165,6 +165,28 @@ theorem absRedirect_allowed (host port : Str) (allowed : List Str) :
     rw [if_neg (by simpa using hne)]
     simp only [Bool.and_eq_true, Bool.or_eq_true, beq_iff_eq]
     exact ⟨hh, by rcases hp with hp | hp <;> simp [hp]⟩
+
+/-- `IsEndpointAllowed` (after the fix): the URL has a NON-EMPTY host, and some whitelist entry with a
+    non-empty host part matches it with an admissible port. -/
+theorem absRedirect_allowed (host port : Str) (allowed : List Str) :
+    isEndpointAllowed host port allowed = true ↔
+      host ≠ [] ∧ ∃ d ∈ allowed, (splitHostPort d).1 ≠ [] ∧
+        isHostnameAllowed host (splitHostPort d).1 = true ∧
+        ((splitHostPort d).2 = ['*'] ∨ (splitHostPort d).2 = port) := by
+  have h : isEndpointAllowed host port allowed = (!host.isEmpty && isEndpointAllowedOld host port allowed) := rfl
+  rw [h, Bool.and_eq_true, absRedirect_allowed_old]
+  simp [List.isEmpty_iff]
+
+/-- regression witness for the fix "never treat a redirect URL without a host as being on an allowed
+    domain": before it, the degenerate whitelist entries "." and "*." matched the EMPTY host of
+    `https:///evil.com` (which a browser resolves to evil.com) -/
+example : isEndpointAllowedOld [] [] [".".toList] = true ∧ isEndpointAllowedOld [] [] ["*.".toList] = true ∧
+          isEndpointAllowed [] [] [".".toList, "*.".toList, "".toList, ":8443".toList] = false := by decide
+
+/-- an allowed absolute redirect always names a host -/
+theorem absRedirect_has_host (host port : Str) (allowed : List Str)
+    (h : isEndpointAllowed host port allowed = true) : host ≠ [] :=
+  ((absRedirect_allowed host port allowed).1 h).1
 
 theorem isHostnameAllowed_iff (h a : Str) :
     isHostnameAllowed h a = true ↔
